@@ -600,7 +600,9 @@ class implicitmodel(timemodel):
         Returns:
 
         """
-        if (field.model.islinear == 1) and (hasattr(self, "jacobian_use")):
+        # jacobian is constant (and reused) only if both model and numerical method are linear
+        num = getattr(self.modeldisc, "num", None)
+        if (field.model.islinear == 1) and (getattr(num, "islinear", 0) == 1) and (hasattr(self, "jacobian_use")):
             return
         self.neq = field.neq
         self.dim = self.neq * field.nelem
